@@ -1,26 +1,21 @@
-/- REGENERATED on every run by harness/props/c04.py from structure/io/pdbx/convert.py, structure/filter.py, structure/bonds.pyx. Do not edit. -/
-namespace BiotiteModel.Gen.C04
-def bondTypes : List (String × Nat) := [("ANY", 0), ("SINGLE", 1), ("DOUBLE", 2), ("TRIPLE", 3), ("QUADRUPLE", 4), ("AROMATIC_SINGLE", 5), ("AROMATIC_DOUBLE", 6), ("AROMATIC_TRIPLE", 7), ("COORDINATION", 8), ("AROMATIC", 9)]
-def typeIdToType : List (String × Nat) := [("covale", 1), ("covale_base", 1), ("covale_phosphate", 1), ("covale_sugar", 1), ("disulf", 1), ("modres", 1), ("modres_link", 1), ("metalc", 8)]
-def typeToTypeId : List (Nat × String) := [(0, "covale"), (1, "covale"), (2, "covale"), (3, "covale"), (4, "covale"), (5, "covale"), (6, "covale"), (7, "covale"), (8, "metalc"), (9, "covale")]
-def typeToOrder : List (Nat × String) := [(0, ""), (1, "sing"), (2, "doub"), (3, "trip"), (4, "quad"), (5, "sing"), (6, "doub"), (7, "trip"), (8, ""), (9, "")]
-def orderToType : List (String × Nat) := [("sing", 1), ("doub", 2), ("trip", 3), ("quad", 4)]
-def orderMasked : List Nat := [0, 8, 9]
-def compOrderToType : List ((String × String) × Nat) := [(("SING", "N"), 1), (("DOUB", "N"), 2), (("TRIP", "N"), 3), (("QUAD", "N"), 4), (("SING", "Y"), 5), (("DOUB", "Y"), 6), (("TRIP", "Y"), 7), (("AROM", "Y"), 9)]
-def canonicalAA : List String := ["ALA", "ARG", "ASN", "ASP", "CYS", "GLN", "GLU", "GLY", "HIS", "ILE", "LEU", "LYS", "MET", "PHE", "PRO", "PYL", "SER", "THR", "TRP", "TYR", "VAL", "SEC"]
-def canonicalNuc : List String := ["A", "DA", "G", "DG", "C", "DC", "U", "DT"]
-def peptideLinks : List String := ["PEPTIDE LINKING", "L-PEPTIDE LINKING", "D-PEPTIDE LINKING"]
-def nucleicLinks : List String := ["RNA LINKING", "DNA LINKING"]
-def noAltloc : List String := [".", "?", " ", ""]
-/-- `_filter_canonical_links`: shape of the returned expression, number of `&` terms, number of comparison terms, the two atom-name tuples. -/
-def canonShape : String := "and-chain"
-def canonTerms : Nat := 5
-def canonCompareTerms : Nat := 4
-/-- (residue list, first atom, second atom) of `is_peptide_link` and `is_nucleotide_link` -/
-def canonKinds : List (String × String × String) := [("aa", "C", "N"), ("nuc", "O3'", "P")]
-def altlocUsesIsalpha : Bool := false
-/-- Structural facts of the source (literals, operators, orders, defaults, exception classes), alpha-normalised:
-no local / private names, no docstrings, comments or message texts. -/
+/-!
+# C04 — snapshot of the structural facts of the source the model was written against
+
+Hand-kept (NOT regenerated): the alpha-normalised facts `gen_lean()` extracted from convert.py, filter.py and
+bonds.pyx when the model was last brought in line with the code.  `Props/C04.lean` proves, group by group, that
+the facts regenerated on this run (`Gen.C04.facts`) equal this snapshot.  What each group means for the model:
+
+* `defaults.*` — the adapter and the oracle call the public functions relying on these defaults;
+* `raises.*` — exception classes the model maps to `Err` (`invalidFile`, `valueError`, `badStructure`) and the oracle demands;
+* `columns.*`, `struct_conn.*`, `chem_comp_bond.*`, `reader.*`, `set_structure.*` — the columns `SiteRow` / `ConnRow` /
+  `CompBondRow` stand for, the key columns of `Key`, masks (`.`/`?`), `HETATM`, charge format `+d`, defaults `-1`, `''`, `0`;
+* `find.*` — dense matcher at or below the threshold, dictionary matcher above (`findDense` / `findDict`);
+* `canon.*`, `bond_split.*` — `isCanonicalLink` (`== 1`, `== SINGLE`, same chain, `<= 1`), `inStructConn` (`!=`, `== COORDINATION`);
+* `model_filter.*`, `get_structure.model_guards` — `selectModel`, `normModel` (`== 0`, `< 0`, `> count`, `< 1`);
+* `filter.occupancy.*` — `argStep` (strict `>`, start −1.0, `sorted(set(...))`); `altloc.options`;
+* `pyx.link.*` — `connectInter` (`!=` chain, `> 1` res_id step, C/N and O3'/P, SINGLE).
+-/
+namespace BiotiteModel.C04.Expected
 def facts : List (String × List String) := [
   ("altloc.columns", ["altloc_id", "label_alt_id", "occupancy"]),
   ("altloc.options", ["all", "first", "occupancy"]),
@@ -65,4 +60,4 @@ def facts : List (String × List String) := [
   ("struct_conn.read_columns", [".", "1_555", "?", "conn_type_id", "pdbx_value_order", "ptnr1_symmetry", "ptnr2_symmetry"]),
   ("struct_conn.written_key_columns", ["label_asym_id", "label_comp_id", "label_seq_id", "label_atom_id", "pdbx_PDB_ins_code"])
 ]
-end BiotiteModel.Gen.C04
+end BiotiteModel.C04.Expected
